@@ -12,6 +12,9 @@
     E <Type> <record>      →  <hex of T.w written for the record>
     D <Type> <hex>         →  ok <record read by T.r> <bytes left>   |  fail
     H <hex>                →  header decode: ok Pcode=…;… <bytes left> | fail
+    HW <p> <o> <k> <n> <t> →  the header setters applied to a fresh object, then the TRANSCRIBED statements of AbstractPack.Write (Gen.Packs.AbstractPack.wProg, interpreted): hex
+    HR <p> <o> <k> <n> <t> <hex> → the TRANSCRIBED statements of AbstractPack.Read (rProg, interpreted) run on an object holding those five values: ok Pcode=…;… <bytes left> | fail
+    ECB <n> <hex>          →  ToBytesPackECB's padding (Layout.ecbPad): hex
     T                      →  the known type names, comma separated
 
   record syntax:  path=val;path=val;…   ("-" for the empty record)
@@ -22,6 +25,7 @@
 -/
 import Golib.Layout.IR
 import Golib.Layout.Reencode
+import Golib.Layout.HeaderProg
 import Golib.Packs.Hand
 import Golib.Packs.Irregular
 import Golib.Packs.Event
@@ -168,6 +172,7 @@ def hand : List (String × L × L) := [
   ("StatGeneralPack", Packs.Irregular.StatGeneralPack.l, Packs.Irregular.StatGeneralPack.l),
   ("StatGeneralPack1", Packs.Irregular.StatGeneralPack1.l, Packs.Irregular.StatGeneralPack1.l),
   ("StatGeneralTable", Packs.Irregular.StatGeneralTable.l, Packs.Irregular.StatGeneralTable.l),
+  ("LogSinkContent", Packs.Hand.LogSinkContent.w, Packs.Hand.LogSinkContent.r),
   ("SMBasePack", .unknown "per OS", smBaseR)
 ]
 
@@ -281,6 +286,22 @@ def answer (line : String) : String :=
       | some (h, rest) => s!"ok {showOut (hdrOut "" h)} {rest.length}"
       | none => "fail"
     | none => "bad-hex"
+  | ["HW", p, o, k, n, t] =>
+    match p.toInt?, o.toInt?, k.toInt?, n.toInt?, t.toInt? with
+    | some p, some o, some k, some n, some t =>
+      hexOf (Gen.Packs.AbstractPack.wProg.write (((((hdr0.setPCODE p).setOID o).setOKIND k).setONODE n).setTime t))
+    | _, _, _, _, _ => "bad-int"
+  | ["HR", p, o, k, n, t, hex] =>
+    match p.toInt?, o.toInt?, k.toInt?, n.toInt?, t.toInt?, ofHex hex with
+    | some p, some o, some k, some n, some t, some bs =>
+      match P.run (Gen.Packs.AbstractPack.rProg.toP nenv0 ⟨p, o, k, n, t⟩) bs with
+      | some (h, rest) => s!"ok {showOut (hdrOut "" h)} {rest.length}"
+      | none => "fail"
+    | _, _, _, _, _, _ => "bad-arg"
+  | ["ECB", n, hex] =>
+    match n.toNat?, ofHex hex with
+    | some n, some bs => hexOf (ecbPad n bs)
+    | _, _ => "bad-arg"
   | ["EF", rec] =>
     match parseRecord rec with
     | some m => showOut (attrsOut (Packs.Event.fold (evOf (recOf m))))
